@@ -33,6 +33,13 @@ void GMGPolar::solve()
 
     number_of_iterations_ = 0;
 
+    /* Statistics and run-time switches describe this solve only: forget what an earlier solve() left behind. */
+    residual_norms_.clear();
+    exact_errors_.clear();
+    if (extrapolation_ == ExtrapolationType::COMBINED) {
+        full_grid_smoothing_ = true;
+    }
+
     double initial_residual_norm;
     double current_residual_norm, current_relative_residual_norm;
 
